@@ -193,8 +193,9 @@ def lexKeep (env : Env) (partialParse : Bool) (expected : List (Nat × Bool)) (c
   if r.2.isEmpty then (r.1, stopOrNone partialParse expected r.1)
   else (r.1, keepToks env.longest env.grammarOrder r.2)
 
-/-- what happens after the layout parser returned (parser.rs:382-393) -/
-def afterLayout (env : Env) (partialParse : Bool) (expected : List (Nat × Bool)) (ctx : Ctx)
+/-- what happens after the layout parser returned (parser.rs:389-401): a non-empty layout becomes the layout
+    ahead and the lexer runs again; otherwise the head gets its position back (`curPos`) -/
+def afterLayout (env : Env) (partialParse : Bool) (expected : List (Nat × Bool)) (curPos : Pos) (ctx : Ctx)
     (r : Outcome ParseResult) : Ctx × Outcome (List Tok) :=
   match r with
   | .ok pr =>
@@ -203,15 +204,15 @@ def afterLayout (env : Env) (partialParse : Bool) (expected : List (Nat × Bool)
       if len > 0 then
         let r := lexKeep env partialParse expected { ctx with lay := some (off, len) }
         (r.1, .ok r.2)
-      else (ctx, .ok (stopOrNone partialParse expected ctx))
-    | none => (ctx, .ok (stopOrNone partialParse expected ctx))
-  | .err _ => (ctx, .ok (stopOrNone partialParse expected ctx))
+      else ({ ctx with pos := curPos }, .ok (stopOrNone partialParse expected { ctx with pos := curPos }))
+    | none => ({ ctx with pos := curPos }, .ok (stopOrNone partialParse expected { ctx with pos := curPos }))
+  | .err _ => ({ ctx with pos := curPos }, .ok (stopOrNone partialParse expected { ctx with pos := curPos }))
   | .panic s => (ctx, .panic s)
   | .fuel => (ctx, .fuel)
 
 /-- `find_lookaheads` on the context view of a head: lex; if nothing matches run the layout parser once
-    (from the layout state; state and span of the head restored afterwards, position and layout kept)
-    and lex again -/
+    (from the layout state; state and span of the head restored afterwards, the position too unless a
+    non-empty layout was parsed) and lex again -/
 def findLookaheadsCtx (env : Env) (partialParse : Bool) (fuel : Nat) (ctx : Ctx) : Ctx × Outcome (List Tok) :=
   let expected := env.t.sorted ctx.state
   let r := lexNext env ctx expected
@@ -223,7 +224,7 @@ def findLookaheadsCtx (env : Env) (partialParse : Bool) (fuel : Nat) (ctx : Ctx)
       let cur := r.1.state
       let curSpan := r.1.span
       let lp := layoutParse env ls r.1 fuel
-      afterLayout env partialParse expected { lp.1 with state := cur, span := curSpan } lp.2
+      afterLayout env partialParse expected r.1.pos { lp.1 with state := cur, span := curSpan } lp.2
 
 /-! ## `create_frontier` (parser.rs:257-317) and `head_for_lookahead` (parser.rs:414-456) -/
 
